@@ -618,6 +618,15 @@ func vpH_step_F_MsgHup_snap() {
 	vpStepCell(StateFollower, o, vpMsgOpts{typ: pb.MsgHup})
 }
 
+// a transfer request naming the learner peer (and the other peer) on the learner shape
+func vpH_step_L_MsgTransferLeader_learner() {
+	o := vpDefaultOpts(StateLeader)
+	o.ls, o.lu = 0, 1
+	o.shapes = []int{3}
+	o.plainData = true
+	vpStepCell(StateLeader, o, vpMsgOpts{typ: pb.MsgTransferLeader})
+}
+
 func vpH_step_F_MsgHup_paged() {
 	o := vpDefaultOpts(StateFollower)
 	o.ls, o.lu = 2, 1
